@@ -300,7 +300,7 @@ impl Axecutor {
         debug_assert_eq!(i.code(), Adc_rm16_imm8);
 
         let flags = self.state.rflags;
-        calculate_rm_imm![u16f; u8; self; i; |d:u16, s:u8| {
+        calculate_rm_imm![u16f; self; i; |d:u16, s:u16| {
             let result = (d as u32).wrapping_add(s as u32).wrapping_add(u32::from(flags & FLAG_CF != 0));
 
             (
@@ -318,7 +318,7 @@ impl Axecutor {
         debug_assert_eq!(i.code(), Adc_rm32_imm8);
 
         let flags = self.state.rflags;
-        calculate_rm_imm![u32f; u8; self; i; |d:u32, s:u8| {
+        calculate_rm_imm![u32f; self; i; |d:u32, s:u32| {
             let result = (d as u64).wrapping_add(s as u64).wrapping_add(u64::from(flags & FLAG_CF != 0));
 
             (
@@ -336,7 +336,7 @@ impl Axecutor {
         debug_assert_eq!(i.code(), Adc_rm64_imm8);
 
         let flags = self.state.rflags;
-        calculate_rm_imm![u64f; u8; self; i; |d:u64, s:u8| {
+        calculate_rm_imm![u64f; self; i; |d:u64, s:u64| {
             let result = (d as u128).wrapping_add(s as u128).wrapping_add(u128::from(flags & FLAG_CF != 0));
 
             (
